@@ -14,6 +14,8 @@ import (
 	"net/http/httptest"
 	"sort"
 	"strings"
+	"sync"
+	"crypto/sha256"
 
 	"github.com/go-openapi/loads"
 	"github.com/go-openapi/runtime"
@@ -57,6 +59,11 @@ type c04In struct {
 	FileSkip int    `json:"file_skip,omitempty"`    // the upload is a seekable reader handed over after this many bytes were already read
 	Wire     string `json:"wire,omitempty"`     // "" = request serialised and re-parsed in process; "tcp" = a real loopback HTTP server and the default transport
 	RespPad  int    `json:"resp_pad,omitempty"` // the response body is followed by this many padding bytes (large bodies are streamed by a real transport)
+	Sign     bool   `json:"sign,omitempty"`     // the auth writer is a request-signing one: it reads the body through GetBody() before setting its header
+	Stream   int    `json:"stream,omitempty"`   // body kind json only: 0 = a value the producer serialises, 1 = an io.Reader over the serialised bytes, 2 = an io.ReadCloser
+	BigFile  int    `json:"big_file,omitempty"` // multipart only: the upload is this many bytes derived from FileSeed (compared by digest)
+	FileSeed int64  `json:"file_seed,omitempty"`
+	Par      []c04In `json:"par,omitempty"`     // kind par: these calls are submitted at the same time, each against its own server
 }
 
 // c04Step is one call of a history: operation 0 is GET <prefix>/{p1}, operation 1 is GET <prefix>/{p1}/{p2}.
@@ -75,6 +82,9 @@ type c04StepObs struct {
 
 type c04Obs struct {
 	SeqObs []c04StepObs `json:"seq_obs,omitempty"`
+	ParObs []c04Obs     `json:"par_obs,omitempty"`
+	Signed Bs           `json:"signed,omitempty"` // what GetBody() gave the signing auth writer
+	SignCalled bool     `json:"sign_called,omitempty"`
 	Panicked  bool   `json:"panicked,omitempty"`
 	Panic     string `json:"panic,omitempty"`
 	SubmitErr string `json:"submit_err,omitempty"`
@@ -97,7 +107,7 @@ func (c04) CoqModule() string { return "Check_C04" }
 func (c04) Rule() string {
 	return "operations from 5 templates x 4 base paths x {POST,PUT,GET} x body kinds {none, urlencoded form, multipart with file, json} x produces {json,text}; " +
 		"values drawn from a corpus of hostile strings (slash, percent, plus, space, question mark, hash, colon, star, braces, quotes, non-ASCII, backslash, CR/LF-free header values) and random bytes; " +
-		"int64 boundary values; repeated query/form values; file contents of length 0..5000; with/without client auth writer. Non-trivial: at least one supplied value contains a byte outside [A-Za-z0-9]."
+		"int64 boundary values; repeated query/form values; file contents of length 0..5000; with/without client auth writer (header-only or a signing one that reads GetBody first); json bodies produced, or streamed as io.Reader / io.ReadCloser; histories of calls on one server; 4-8 uploads of 40 kB..3 MiB in flight at the same time (compared by digest). Non-trivial: at least one supplied value contains a byte outside [A-Za-z0-9]."
 }
 
 func (c04) Decode(raw json.RawMessage) (any, error) {
@@ -151,6 +161,17 @@ func c04PathVal(r *rand.Rand) Bs {
 }
 
 func (c04) Gen(r *rand.Rand, tier string, i int) any {
+	if i%25 == 7 { // uploads in flight at the same time: each handler must get its own file
+		var in c04In
+		k := 4 + r.Intn(5)
+		for j := 0; j < k; j++ {
+			in.Par = append(in.Par, c04In{BasePath: c04Bases[r.Intn(len(c04Bases))], Method: "POST", Template: c04Templates[r.Intn(len(c04Templates))],
+				P1: c04PathVal(r), P2: c04PathVal(r), Body: "multipart", F1: c04Val(r, false), FileName: "f.bin", Produces: "json",
+				BigFile: []int{40000, 300000, 1 << 20, 3 << 20}[r.Intn(4)], FileSeed: r.Int63(), RespBody: "ok", RespHdr: "h",
+				Auth: r.Intn(4) == 0, Sign: true})
+		}
+		return in
+	}
 	if i%10 == 9 {
 		in := c04In{BasePath: c04Bases[r.Intn(len(c04Bases))], Method: "GET", Template: []string{"/files", "/a/b", "/r"}[r.Intn(3)], Produces: "json"}
 		pool := []Bs{c04PathVal(r), c04PathVal(r), "a", "b", "a/b", "x"}
@@ -202,6 +223,8 @@ func (c04) Gen(r *rand.Rand, tier string, i int) any {
 		in.FileName = string(b) + ".t"
 	}
 	in.ConsAlt = r.Intn(3) == 0
+	in.Sign = in.Auth && r.Intn(2) == 0
+	in.Stream = r.Intn(3)
 	if r.Intn(4) == 0 {
 		in.Wire = "tcp"
 		in.RespPad = []int{0, 1500, 5000, 70000, 300000}[r.Intn(5)]
@@ -397,6 +420,50 @@ func c04RunSeq(in c04In, obs *c04Obs) {
 
 func (c04) Run(inAny any) any {
 	in := inAny.(c04In)
+	if len(in.Par) > 0 {
+		var obs c04Obs
+		obs.ParObs = make([]c04Obs, len(in.Par))
+		var wg sync.WaitGroup
+		start := make(chan struct{})
+		for i := range in.Par {
+			wg.Add(1)
+			go func(i int) {
+				defer wg.Done()
+				<-start
+				obs.ParObs[i] = c04RunOne(in.Par[i])
+			}(i)
+		}
+		close(start)
+		wg.Wait()
+		return obs
+	}
+	return c04RunOne(in)
+}
+
+// c04File is the upload of a case: the literal bytes, or BigFile pseudo-random bytes from FileSeed.
+func c04File(in c04In) []byte {
+	if in.BigFile == 0 {
+		return []byte(in.File)
+	}
+	b := make([]byte, in.BigFile)
+	rand.New(rand.NewSource(in.FileSeed)).Read(b)
+	return b
+}
+
+// c04Digest stands for a large content in the case file: equal digests and lengths = equal contents.
+func c04Digest(b []byte) Bs {
+	if len(b) <= 6000 {
+		return Bs(b)
+	}
+	h := sha256.Sum256(b)
+	return Bs(fmt.Sprintf("sha256:%x len:%d", h, len(b)))
+}
+
+type c04OnlyReader struct{ r io.Reader }
+
+func (o c04OnlyReader) Read(p []byte) (int, error) { return o.r.Read(p) }
+
+func c04RunOne(in c04In) c04Obs {
 	var obs c04Obs
 	if len(in.Seq) > 0 {
 		obs.Panicked, obs.Panic = recoverTo(func() { c04RunSeq(in, &obs) })
@@ -433,13 +500,13 @@ func (c04) Run(inAny any) any {
 			for k, v := range data.(map[string]interface{}) {
 				if f, ok := v.(runtime.File); ok {
 					b, _ := io.ReadAll(f.Data)
-					obs.Recv["up"] = []Bs{Bs(b)}
+					obs.Recv["up"] = []Bs{c04Digest(b)}
 					obs.Recv["up.name"] = []Bs{Bs(f.Header.Filename)}
 					continue
 				}
 				if f, ok := v.(*runtime.File); ok && f != nil {
 					b, _ := io.ReadAll(f.Data)
-					obs.Recv["up"] = []Bs{Bs(b)}
+					obs.Recv["up"] = []Bs{c04Digest(b)}
 					obs.Recv["up.name"] = []Bs{Bs(f.Header.Filename)}
 					continue
 				}
@@ -501,15 +568,22 @@ func (c04) Run(inAny any) any {
 					}
 				case "multipart":
 					_ = req.SetFormParam("f1", string(in.F1))
-					if in.FileSkip > 0 {
+					if in.FileSkip > 0 && in.BigFile == 0 {
 						rd := bytes.NewReader([]byte(in.File))
 						_, _ = rd.Seek(int64(in.FileSkip), io.SeekStart) // the caller has already consumed a prefix
 						_ = req.SetFileParam("up", c04Seekable{rd, in.FileName})
 					} else {
-						_ = req.SetFileParam("up", runtime.NamedReader(in.FileName, bytes.NewReader([]byte(in.File))))
+						_ = req.SetFileParam("up", runtime.NamedReader(in.FileName, bytes.NewReader(c04File(in))))
 					}
 				case "json":
-					_ = req.SetBodyParam(map[string]string{"v": string(in.JSON)})
+					switch in.Stream {
+					case 1: // the caller streams the serialised document itself
+						_ = req.SetBodyParam(c04OnlyReader{bytes.NewReader(c04JSONDoc(in))})
+					case 2:
+						_ = req.SetBodyParam(io.NopCloser(c04OnlyReader{bytes.NewReader(c04JSONDoc(in))}))
+					default:
+						_ = req.SetBodyParam(map[string]string{"v": string(in.JSON)})
+					}
 				}
 				return nil
 			}),
@@ -537,6 +611,13 @@ func (c04) Run(inAny any) any {
 		}
 		if in.Auth {
 			op.AuthInfo = client.APIKeyAuth("X-Key", "header", "secret-token")
+			if in.Sign { // a signing scheme: looks at the body first
+				op.AuthInfo = runtime.ClientAuthInfoWriterFunc(func(req runtime.ClientRequest, _ strfmt.Registry) error {
+					obs.SignCalled = true
+					obs.Signed = c04Digest(req.GetBody())
+					return req.SetHeaderParam("X-Key", "secret-token")
+				})
+			}
 		}
 		if _, err := rt.Submit(op); err != nil {
 
@@ -544,6 +625,11 @@ func (c04) Run(inAny any) any {
 		}
 	})
 	return obs
+}
+
+func c04JSONDoc(in c04In) []byte {
+	b, _ := json.Marshal(map[string]string{"v": string(in.JSON)})
+	return b
 }
 
 // supplied lists the values the caller set, by parameter, in the form the handler is expected to receive them
@@ -590,6 +676,9 @@ func c04Supplied(in c04In) map[string][]Bs {
 			skip = len(in.File)
 		}
 		m["up"] = []Bs{in.File[skip:]}
+		if in.BigFile > 0 {
+			m["up"] = []Bs{c04Digest(c04File(in))}
+		}
 		name := in.FileName
 		if i := strings.LastIndexAny(name, "/"); i >= 0 {
 			name = name[i+1:]
@@ -636,19 +725,60 @@ func (c04) Coq(inAny any, obsAny any) string {
 		}
 		return fmt.Sprintf("CRoundSeq %s [%s]", coqBool(obs.Panicked), strings.Join(steps, "; "))
 	}
+	if len(in.Par) > 0 {
+		steps := make([]string, 0, len(in.Par))
+		for i, sub := range in.Par {
+			var so c04Obs
+			if i < len(obs.ParObs) {
+				so = obs.ParObs[i]
+			}
+			rest := so.Ran && c04AuthOK(sub, so) && so.SeenCode == 201 && so.SeenHdr == sub.RespHdr && so.SeenBody == sub.RespBody
+			steps = append(steps, fmt.Sprintf("(%s, %s, %s, %s)", coqBool(so.Panicked || so.SubmitErr != ""), coqBool(rest), c04Assoc(c04Supplied(sub)), c04Assoc(so.Recv)))
+		}
+		return fmt.Sprintf("CRoundPar [%s]", strings.Join(steps, "; "))
+	}
 	return fmt.Sprintf("CRound %s %s %s %s %s %s %s %s %s %s",
 		coqBool(obs.Panicked), coqBool(obs.SubmitErr != ""), coqBool(obs.Ran),
 		c04Assoc(c04Supplied(in)), c04Assoc(obs.Recv),
-		coqBool(!in.Auth || obs.AuthSeen == "secret-token"),
+		coqBool(c04AuthOK(in, obs)),
 		coqPair(coqBytes(string(in.RespHdr)), coqBytes(string(in.RespBody))),
 		coqNat(obs.SeenCode), coqPair(coqBytes(string(obs.SeenHdr)), coqBytes(string(obs.SeenBody))),
 		coqBool(true))
+}
+
+// c04AuthOK: the server saw the credential the auth writer set; a signing writer was called and, where the body is a
+// document the caller fixed (json kinds), GetBody() gave it exactly that document.
+func c04AuthOK(in c04In, obs c04Obs) bool {
+	if !in.Auth {
+		return true
+	}
+	if obs.AuthSeen != "secret-token" {
+		return false
+	}
+	if in.Sign {
+		if !obs.SignCalled {
+			return false
+		}
+		if in.Body == "json" && in.Stream%3 != 0 && obs.Signed != c04Digest(c04JSONDoc(in)) {
+			return false
+		}
+		if in.Body == "json" && in.Stream%3 == 0 { // serialised by the producer: the same document up to JSON spelling
+			var m map[string]string
+			if json.Unmarshal([]byte(obs.Signed), &m) != nil || len(m) != 1 || m["v"] != string(in.JSON) {
+				return false
+			}
+		}
+	}
+	return true
 }
 
 func (c04) Classify(inAny any, obsAny any) []string { return nil }
 
 func (c04) Category(inAny any, obsAny any) (string, bool) {
 	in := inAny.(c04In)
+	if len(in.Par) > 0 {
+		return fmt.Sprintf("parallel/%d-uploads-in-flight", len(in.Par)), true
+	}
 	if len(in.Seq) > 0 {
 		return fmt.Sprintf("history/%d-calls-one-server", len(in.Seq)), true
 	}
@@ -665,6 +795,12 @@ func (c04) Category(inAny any, obsAny any) (string, bool) {
 	a := "noauth"
 	if in.Auth {
 		a = "auth"
+		if in.Sign {
+			a = "auth-signing"
+		}
+	}
+	if in.Body == "json" {
+		a += []string{"/produced", "/io.Reader", "/io.ReadCloser"}[in.Stream%3]
 	}
 	w := "inproc"
 	if in.Wire == "tcp" {
